@@ -9,7 +9,7 @@ from ..translate import TranslateError, find_class, find_func, parse_file
 from ..workers.c02_flow import CLASS_IDS, UNKNOWN_CLASS, class_table, render
 
 SWITCHES = [("d8_else_drops_jump", "D8"), ("d9_with_flat", "D9"), ("d10_base_uncaught", "D10"),
-            ("d200_unbind_keyerror", "D200"), ("d201_enter_in_try", "D201")]
+            ("d200_unbind_keyerror", "D200"), ("d201_enter_in_try", "D201"), ("d202_asyncfor_sync", "D202")]
 
 
 # ------------------------------------------------------------------------------------------------
@@ -93,6 +93,7 @@ class Alloc:
         self.mgrs = []
         self.msgs = []
         self.hcs = []
+        self.inner_async = False      # set by path_case: must the function scope created by the next frame be async
 
     def hc(self, class_names):
         """a rebindable global class name HCk; its (non-empty) script lists the classes it is bound to, in turn (cyclically)"""
@@ -122,7 +123,7 @@ class Alloc:
         return self.k
 
     def case(self, body, **extra):
-        c = {"body": body, "scripts": self.scripts, "mgrs": self.mgrs, "msgs": self.msgs, "hcs": self.hcs}
+        c = {"body": body, "scripts": self.scripts, "mgrs": self.mgrs, "msgs": self.msgs, "hcs": self.hcs, "amain": False}
         c.update(extra)
         return c
 
@@ -248,7 +249,7 @@ def _frames():
 
     @add("func")
     def _(a, H, nm):
-        return [["func", a.site(), _hole(a, H)]]
+        return [["func", a.site(), _hole(a, H), a.inner_async]]
 
     # --- a jump pending while a finally clause / a script-defined __exit__ runs more script code
     @add("tryfin/final,ret-pending")
@@ -265,11 +266,36 @@ def _frames():
 
     @add("withs/exit,ret-pending")
     def _(a, H, nm):
-        return [["withs", a.site(), _hole(a, H), [a.T(), ["return", 5]]]]
+        return [["withs", a.site(), _hole(a, H), [a.T(), ["return", 5]], a.inner_async]]
 
     @add("withs/exit,exc")
     def _(a, H, nm):
-        return [["withs", a.site(), _hole(a, H), [a.T(), ["raise", "EB", None]]]]
+        return [["withs", a.site(), _hole(a, H), [a.T(), ["raise", "EB", None]], a.inner_async]]
+
+    # --- the async forms (the enclosing function becomes an async def, an enclosing inner function is awaited)
+    @add("async:with1/keep")
+    def _(a, H, nm):
+        return [["with", [a.mgr(None, 0)], _hole(a, H), True]]
+
+    @add("async:with2/keep,suppress")
+    def _(a, H, nm):
+        return [["with", [a.mgr(None, 0), a.mgr(None, 1)], _hole(a, H), True]]
+
+    @add("async:withs/body")
+    def _(a, H, nm):
+        return [["withs", a.site(), [a.T(), ["return", 0]], _hole(a, H), True]]
+
+    @add("async:forelse/body")
+    def _(a, H, nm):
+        return [["for", a.site([1, 1]), _hole(a, H), [a.T()], "dual"]]
+
+    @add("async:forelse/else")
+    def _(a, H, nm):
+        return [["for", a.site([1]), [a.T()], _hole(a, H), "dual"]]
+
+    @add("async:for-asynconly/body")
+    def _(a, H, nm):
+        return [["for", a.site([1, 1]), _hole(a, H), [], "aonly"]]
 
     # --- the same try statement executed twice while the class named by its except clause is rebound in between
     @add("loop-tryvar/first-then-second")
@@ -344,6 +370,10 @@ def supported(body):
     return all(supp(s, False) for s in body)
 
 
+def _makes_scope(label):
+    return label == "func" or label.startswith("withs/exit")
+
+
 def path_case(path, jump):
     """path: indices into FRAMES, outermost first"""
     a = Alloc()
@@ -354,16 +384,25 @@ def path_case(path, jump):
     names = []
     for d, fi in enumerate(path):
         names.append(10 * scope + 1 + d % 2)
-        if FRAMES[fi][0] == "func" or FRAMES[fi][0].startswith("withs/exit"):
+        if _makes_scope(FRAMES[fi][0]):
             scope += 1
+    need_async = False          # does the function scope we are in (walking outwards) have to be an async def
     for d in range(len(path) - 1, -1, -1):
+        label = FRAMES[path[d]][0]
+        if label.startswith("async:"):
+            need_async = True
+        a.inner_async = need_async if _makes_scope(label) else False
         H = FRAMES[path[d]][1](a, H, names[d])
+        # an async inner function is awaited / an async __aexit__ needs `async with`: the outer scope is async too
     body = [a.T()] + H + [a.T()]
-    return a.case(body, kind="path", label="|".join(FRAMES[i][0] for i in path) + "|" + jump)
+    c = a.case(body, kind="path", label="|".join(FRAMES[i][0] for i in path) + "|" + jump)
+    c["amain"] = need_async
+    return c
 
 
-def enum_paths(depth, jumps):
-    for path in itertools.product(range(len(FRAMES)), repeat=depth):
+def enum_paths(depth, jumps, frames=None):
+    idx = range(len(FRAMES)) if frames is None else frames
+    for path in itertools.product(idx, repeat=depth):
         for j in jumps:
             c = path_case(path, j)
             if supported(c["body"]):
@@ -392,7 +431,13 @@ class RandGen:
     def cond_script(self):
         return [self.rng.choice([0, 1, 1]) for _ in range(self.rng.choice([1, 1, 2, 3]))]
 
-    def block(self, depth, inl, loopdepth, scope, lo=1, hi=3):
+    def block(self, depth, inl, loopdepth, scope, lo=1, hi=3, asc=None):
+        if asc is not None:
+            saved, self.asc = getattr(self, "asc", False), asc
+            try:
+                return self.block(depth, inl, loopdepth, scope, lo, hi)
+            finally:
+                self.asc = saved
         n = self.rng.randint(lo, hi)
         out = []
         for _ in range(n):
@@ -442,6 +487,7 @@ class RandGen:
         if (kind in ("for", "while")) and loopdepth >= 3:
             kind = "try"
         a = self.a
+        asy = self.asc and rng.random() < 0.45        # async form (only inside an async function)
         if kind == "if":
             k = a.site(self.cond_script())
             return [["if", k, self.block(d, inl, loopdepth, scope), self.block(d, inl, loopdepth, scope) if rng.random() < 0.5 else []]]
@@ -449,6 +495,8 @@ class RandGen:
             k = a.site(self.script(loopdepth))
             body = self.block(d, True, loopdepth + 1, scope)
             orelse = self.block(d, inl, loopdepth, scope, 1, 2) if rng.random() < 0.5 else []
+            if kind == "for" and asy:
+                return [[kind, k, body, orelse, rng.choice(["dual", "dual", "aonly"])]]
             return [[kind, k, body, orelse]]
         if kind == "try":
             body = self.block(d, inl, loopdepth, scope)
@@ -475,19 +523,22 @@ class RandGen:
                 r = rng.random()
                 exit_ = 0 if r < 0.5 else 1 if r < 0.85 else ["raise", rng.choice(["EC", "EA", "BX"])]
                 items.append(a.mgr(enter, exit_))
-            return [["with", items, self.block(d, inl, loopdepth, scope)]]
+            return [["with", items, self.block(d, inl, loopdepth, scope), asy]]
         self.scope_ctr += 1
         if kind == "withs":
-            xbody = self.block(d, False, 0, self.scope_ctr, 1, 2)
-            return [["withs", a.site(), xbody, self.block(d, inl, loopdepth, scope)]]
-        return [["func", a.site(), self.block(d, False, 0, self.scope_ctr)]]
+            xbody = self.block(d, False, 0, self.scope_ctr, 1, 2, asc=asy)
+            return [["withs", a.site(), xbody, self.block(d, inl, loopdepth, scope), asy]]
+        return [["func", a.site(), self.block(d, False, 0, self.scope_ctr, asc=asy), asy]]
 
 
 def random_case(rng):
     maxdepth = rng.choice([2, 3, 4, 5, 6, 6])
     g = RandGen(rng, maxdepth)
-    body = g.block(0, False, 0, 0, 1, 3)
-    return g.a.case(body, kind="random", label=f"random/d{maxdepth}")
+    amain = rng.random() < 0.4
+    body = g.block(0, False, 0, 0, 1, 3, asc=amain)
+    c = g.a.case(body, kind="random", label=f"random/d{maxdepth}")
+    c["amain"] = amain
+    return c
 
 
 def depth_of(stmts):
@@ -512,7 +563,7 @@ def constructs_of(stmts, acc):
     for s in stmts:
         op = s[0]
         if op in ("if", "while", "for"):
-            acc.add(op + ("-else" if s[3] and op != "if" else ""))
+            acc.add(("async-" if op == "for" and len(s) > 4 and s[4] != "sync" else "") + op + ("-else" if s[3] and op != "if" else ""))
             constructs_of(s[2], acc)
             constructs_of(s[3], acc)
         elif op == "try":
@@ -520,7 +571,7 @@ def constructs_of(stmts, acc):
             for b in [s[1], s[3], s[4]] + [h[2] for h in s[2]]:
                 constructs_of(b, acc)
         elif op == "with":
-            acc.add(f"with{len(s[1])}")
+            acc.add(("async-" if len(s) > 3 and s[3] else "") + f"with{len(s[1])}")
             constructs_of(s[2], acc)
         elif op == "func":
             acc.add("func")
@@ -573,6 +624,8 @@ def _q_stmt(s):
         return f"(SProbe {_n(s[1])} {_n(s[2])})"
     if op in ("if", "while", "for"):
         ctor = {"if": "SIf", "while": "SWhile", "for": "SFor"}[op]
+        if op == "for":
+            ctor += " " + {"sync": "FSync", "dual": "FAsyncDual", "aonly": "FAsyncOnly"}[s[4] if len(s) > 4 else "sync"]
         return f"({ctor} {_n(s[1])} {_q_block(s[2])} {_q_block(s[3])})"
     if op == "break":
         return "SBreak"
@@ -594,16 +647,16 @@ def _q_stmt(s):
             hs.append(f"({mm}, {q.option(_n(name) if name is not None else None)}, {_q_block(hb)})")
         return f"(STry {_q_block(s[1])} {_lst(hs)} {_q_block(s[3])} {_q_block(s[4])})"
     if op == "with":
-        return f"(SWith {_lst(_n(k) for k in s[1])} {_q_block(s[2])})"
+        return f"(SWith {q.boolean(len(s) > 3 and bool(s[3]))} {_lst(_n(k) for k in s[1])} {_q_block(s[2])})"
     if op == "assert":
         msg = s[2] if len(s) > 2 else None
         return f"(SAssert {_n(s[1])} {q.option(_n(msg) if msg is not None else None)})"
     if op == "func":
-        return f"(SFunc {_n(s[1])} {_q_block(s[2])})"
+        return f"(SFunc {q.boolean(len(s) > 3 and bool(s[3]))} {_n(s[1])} {_q_block(s[2])})"
     if op == "sw":
         return f"(SSwitch {_n(s[1])})"
     if op == "withs":
-        return f"(SWithS {_n(s[1])} {_q_block(s[2])} {_q_block(s[3])})"
+        return f"(SWithS {q.boolean(len(s) > 4 and bool(s[4]))} {_n(s[1])} {_q_block(s[2])} {_q_block(s[3])})"
     raise ValueError(s)
 
 
@@ -667,14 +720,16 @@ def _q_mgr(m):
 
 class FlowStream(Stream):
     name = "flow"
-    rule = ("control-flow skeletons wrapped in a function: (a) every path of 1..d frames out of 33 "
+    rule = ("control-flow skeletons wrapped in a function: (a) every path of 1..d frames out of 39 "
             "(if body/else; for, for-else, while, while-else body/else; try-except body with first/second/no handler matching, "
             "inside first/second handler; try-finally body/finally (normal and during an exception); try-except-else-finally "
             "body/handler/else/finally; with 1 manager keep/suppress; with 2 managers keep,keep/suppress,keep/keep,suppress; "
             "function boundary; a return pending (from the try body / from a handler) while the finally clause runs; a manager class written "
             "in the script: with-body, and its __exit__ body - a function body - running while a return / an exception is pending; the same "
             "try statement executed twice in a loop while sw(k) rebinds the global class name HCk of its first except clause, first-then-"
-            "second and second-then-first handler) ending in each of {break, continue, return, raise, fall-through} (plus bare re-raise, raise-from, "
+            "second and second-then-first handler; the async forms: async with 1 and 2 managers, async with over a script manager, async "
+            "for(-else) body/else over an object with both iteration protocols, async for over a proper asynchronous iterator - with the "
+            "enclosing functions turned into async defs and awaited) ending in each of {break, continue, return, raise, fall-through} (plus bare re-raise, raise-from, "
             "raise of a BaseException, failing assert, and asserts with a message expression ms(j) that logs and may raise - passing "
             "(message must not be evaluated), failing, failing with a raising message - for d=1 and, in thorough, d=2; bare re-raise, "
             "BaseException and the passing assert-with-message for d=2 in quick), "
@@ -694,7 +749,7 @@ class FlowStream(Stream):
     coqc_timeout = 1500      # a shard needs ~5 s of CPU; the margin is for a heavily shared machine
 
     def budget(self, tier):
-        return 9200 if tier == "quick" else 156000
+        return 12300 if tier == "quick" else 175000
 
     def prelude(self, ctx, findings, witness_terms):
         ct = q.lst(f"({q.N(cid)}, {q.lst(q.N(x) for x in anc)})" for cid, anc in class_table())
@@ -704,13 +759,16 @@ class FlowStream(Stream):
         rng = ctx.rng
         deep = ctx.tier == "thorough" or bool(focus)
         enum = list(enum_paths(1, BASE_JUMPS + EXTRA_JUMPS)) + list(enum_paths(2, BASE_JUMPS + (EXTRA_JUMPS if deep else QUICK_EXTRA_JUMPS)))
-        if deep and budget >= 20000:
-            enum += list(enum_paths(3, BASE_JUMPS))
         n_d3 = 0
+        if deep and budget >= 20000:
+            # depth 3: exhaustive over the plain frames; paths through the async forms are sampled
+            enum += list(enum_paths(3, BASE_JUMPS, [i for i, f in enumerate(FRAMES) if not f[0].startswith("async:")]))
+            n_d3 = 15000
         if budget >= len(enum) + 200:
             extra = budget - len(enum)
             if not deep or budget < 20000:
                 n_d3 = min(600, extra // 3)           # quick: a sample of the depth-3 paths
+            n_d3 = min(n_d3, extra // 2)
             n_random = extra - n_d3
         else:                                         # development budgets: a sample of everything
             n_random = budget // 4
@@ -728,7 +786,7 @@ class FlowStream(Stream):
         return cases
 
     def run_impl(self, ctx, cases):
-        slim = [{"body": c["body"], "scripts": c["scripts"], "mgrs": c["mgrs"], "msgs": c.get("msgs", []), "hcs": c.get("hcs", [])} for c in cases]
+        slim = [{"body": c["body"], "scripts": c["scripts"], "mgrs": c["mgrs"], "msgs": c.get("msgs", []), "hcs": c.get("hcs", []), "amain": bool(c.get("amain"))} for c in cases]
         nproc = 16 if len(slim) > 20000 else 8 if len(slim) > 400 else 2
         chunks = split_chunks(slim, nproc)
         res = run_workers_parallel(ctx, "vh.workers.c02_flow", [{"cases": c} for c in chunks])
@@ -744,7 +802,7 @@ class FlowStream(Stream):
             _lst(_q_mgr(m) for m in case["mgrs"]), msgs, _q_obs(obs["ps"]), py))
 
     def key(self, case):
-        return json.dumps([case["body"], case["scripts"], case["mgrs"], case.get("msgs", [])], sort_keys=True)
+        return json.dumps([case["body"], case["scripts"], case["mgrs"], case.get("msgs", []), bool(case.get("amain"))], sort_keys=True)
 
     def nontrivial(self, case, obs):
         return len(obs["py"]["log"]) > 3 and depth_of(case["body"]) >= 1
@@ -779,7 +837,7 @@ class C02(Prop):
         "runs on) is modelled by the `cur` argument of both evaluators",
     ]
     assumptions = ["skeletons are accepted by CPython's compiler (break/continue inside a loop of the same function)",
-                   "async for / async with, generators (yield), match statements and exception groups (except*) are outside the model",
+                   "generators (yield), match statements and exception groups (except*) are outside the model; recording objects of async forms never suspend",
                    "implicit exception chaining (__context__) and tracebacks are not compared"]
     partial_note = ("expressions, assignment targets of `with ... as` / `for` targets and closures are C01/C03; a handler name probed "
                     "through a closure is not generated")
